@@ -662,8 +662,13 @@ func runR(sp *spec) (res result) {
 			ids = append(ids, id)
 		}
 		sort.Slice(ids, func(i, j int) bool { return ids[i] < ids[j] })
+		// the list returned is that of a peer that was not thrown out
+		banned := map[int64]bool{}
+		for _, b := range bans {
+			banned[b] = true
+		}
 		for _, id := range ids {
-			if eqLists(orig[id], out) {
+			if eqLists(orig[id], out) && !banned[id] {
 				hint = id
 				break
 			}
